@@ -221,6 +221,14 @@ def run(ctx, tier):
                                 newst |= P.norm_state(ctx, p, fn, P.node_state_term(cs['cont'], T(np_), sf))
                             if ast == frozenset(newst):
                                 okn = True
+                if not okn:
+                    from .c05 import inbody_neighbour_centre
+                    centre = inbody_neighbour_centre(ctx, p, fn, src)
+                    newst = set()
+                    for np_ in new_parents:
+                        newst |= P.norm_state(ctx, p, fn, P.node_state_term(cs['cont'], T(np_), sf))
+                    if centre is not None and centre == frozenset(newst):
+                        okn = True
             r_rew.inst('%s: rewire candidates are the neighbours of the new node' % b.path, ok=okn, site=fn.loc(blk))
             if not okn:
                 r_rew.violations.append(Violation('C17', 'C17.rewire', b.path, 'candidates',
@@ -310,6 +318,11 @@ def _choose(ctx, p, fn, b, cfs, cdefs, pdefs, cont, st_terms, sf, r_choose):
                     ast = P.norm_state(ctx, p, fn, fn._field(n[2][pidx - 1], sf))
                     if ast == P.norm_state(ctx, p, fn, st_terms):
                         okl = True
+        if not okl and src is not None:
+            from .c05 import inbody_neighbour_centre
+            centre = inbody_neighbour_centre(ctx, p, fn, src)
+            if centre is not None and centre == P.norm_state(ctx, p, fn, st_terms):
+                okl = True
         # guarded by strict  cost(new, candidate) < running best
         facts = cmp_facts(fn, pb)
         oks = False
